@@ -1,22 +1,14 @@
-import YaclibModel.Proofs.CoSharedMutex
+import YaclibModel.Proofs.CoSharedMutexS_wrFadd_1
+import YaclibModel.Proofs.CoSharedMutexS_wrFadd_2
+import YaclibModel.Proofs.CoSharedMutexS_wrFadd_3
 namespace Yaclib.CoSharedMutex
 
-set_option maxHeartbeats 4000000 in
 theorem inv_wrFadd {cfg : Cfg} {s : State} (hi : Inv cfg s) (c : Cid) (h : s.pc c = .wLocked) (hs : s.spin = .held c) :
     Inv cfg ((doWrFadd s c)) := by
-  have hpb := pendBy_none_of_held hi hs (by rw [h]; rfl)
-  have hpd := hi.pend_none hpb
   by_cases hW : s.W = 0
-  · have hpwn : s.pw = .none := by
-      have h5 := hi.j5
-      cases hp : s.pw.isSome
-      · exact PW.eq_none_of_isSome hp
-      · rw [hW, hp] at h5; simp at h5 <;> omega
-    cases hi
-    by_cases hR : s.R = 0
-    · simp only [doWrFadd, hW, hR, ↓reduceIte]; sm_auto [List.count_le_length]
-    · simp only [doWrFadd, hW, hR, ↓reduceIte]; sm_auto [List.count_le_length]
-  · cases hi
-    simp only [doWrFadd, hW, ↓reduceIte]; sm_auto [List.count_le_length]
+  · by_cases hR : s.R = 0
+    · exact inv_wrFadd_1 hi c h hs hW hR
+    · exact inv_wrFadd_2 hi c h hs hW hR
+  · exact inv_wrFadd_3 hi c h hs hW
 
 end Yaclib.CoSharedMutex
